@@ -97,7 +97,7 @@ func c04All(src string, env interface{}, ops []expr.Option) (kind, what string) 
 	return "", ""
 }
 
-var c04Bytes = []byte{'a', 'n', 'i', '_', '$', '0', '1', 'x', 'e', '.', '"', '\'', '\\', '(', ')', '[', ']', '{', '}', '+', '-', '*', '/', '%', '!', '=', '<', '&', '|', '?', ':', ',', '#', ' ', '\n', 0xC3, 0xA9, 0xFF}
+var c04Bytes = []byte{'a', 'n', 'i', '_', '$', '0', '1', 'x', 'e', '.', '"', '\'', '\\', '(', ')', '[', ']', '{', '}', '+', '-', '*', '/', '%', '!', '=', '<', '&', '|', '?', ':', ',', '#', ' ', '\n', '\r', 0xC3, 0xA9, 0xFF}
 
 // ---- option menu ----
 
